@@ -136,7 +136,10 @@ func sortStrings(l []string) []string {
 	return l
 }
 
-func genRedirects(e *emitter, p *pkgInfo) {
+func init() { register("c17-redirects", genRedirects) }
+
+func genRedirects(e *emitter) {
+	p := e.pkg("cmd/keymasterd")
 	var sites []redirectSite
 	p.eachFunc(func(fd *ast.FuncDecl) {
 		ast.Inspect(fd.Body, func(n ast.Node) bool {
